@@ -334,7 +334,7 @@ func NamePropertyDesc(prop PropKey) PropertyDesc {
 				ret = nil
 			case string:
 				name, err := enc.NameFromStr(v)
-				if err != nil {
+				if err == nil {
 					field.Set(reflect.ValueOf(name))
 					ret = nil
 				}
